@@ -676,3 +676,52 @@ class _calc_1d_bins:
             v = [(e[0], e[1]), (e[1], e[2])] if spec != "pairs" else [(e[0], e[1]), (e[2], e[3])]
             return Not(rising(v))
         return False
+
+
+# ---------------------------------------------------------------------------------------------- pretty_binning (C07)
+
+def _pretty_width_of(raw):
+    """the library's own choice of a pretty width for `raw` (find_pretty_width has its own contract); evaluated by the interpreter in
+    the symbolic world and by the real function in the concrete one"""
+    if is_sym_world(raw):
+        from pyvc.values import CURRENT
+        I = CURRENT["interp"]
+        return I.call(I.find("physt._bin_utils:find_pretty_width"), [raw], {})
+    from physt._bin_utils import find_pretty_width
+    return find_pretty_width(raw)
+
+
+@contract(BN + "pretty_binning", props=["C07"])
+class _pretty_binning:
+    """the width is the pretty width of (max - min) / bin_count where an explicit range takes precedence over the data's own
+    minimum and maximum; the bins are laid over that range / the data on the grid of multiples of the width"""
+    bounded = True
+    bound_note = "pretty_binning: 2 data values, explicit range or none, bin_count given"
+
+    def configs():
+        return [{"data": True, "range": False}, {"data": True, "range": True}, {"data": False, "range": True}]
+
+    def inputs(b):
+        c = b.cfg
+        kw = dict(data=None, bin_count=b.int("k"))
+        b.assume(And(kw["bin_count"] >= 1, kw["bin_count"] <= 3))
+        if c.data:
+            d = b.array("d", (2,))
+            b.assume(elems(d)[0] < elems(d)[1])
+            kw["data"] = d
+        if c.range:
+            lo, hi = b.real("lo"), b.real("hi")
+            b.assume(lo < hi)
+            if c.data:       # requires: the data lie inside the requested range
+                b.assume(And(lo <= elems(kw["data"])[0], elems(kw["data"])[1] <= hi))
+            kw["range"] = (lo, hi)
+        return kw
+
+    @ensures("width_from_the_requested_range_if_given_otherwise_from_the_data")
+    def _(a, old, result):
+        if hasattr(old, "range"):
+            lo, hi = old.range
+        else:
+            lo, hi = elems(old.data)
+        raw = div(hi - lo, old.bin_count)
+        return And(typename(result) == "FixedWidthBinning", close(attr(result, "_bin_width"), _pretty_width_of(raw)))
